@@ -11,18 +11,36 @@ var (
 )
 
 func AssignValue(src, dst reflect.Value) error {
-	if dst.Type().Kind() != reflect.Ptr {
-		return fmt.Errorf("invalid dst type. required pointer type: %T", dst.Type())
+	if !dst.IsValid() || dst.Type().Kind() != reflect.Ptr || dst.IsNil() {
+		return fmt.Errorf("invalid dst type. required non-nil pointer type")
+	}
+	if !src.IsValid() {
+		// a selected null: as in Unmarshal it clears what can be nil and leaves the rest
+		switch dst.Elem().Kind() {
+		case reflect.Ptr, reflect.Map, reflect.Slice, reflect.Interface:
+			dst.Elem().Set(reflect.Zero(dst.Elem().Type()))
+		}
+		return nil
 	}
 	casted, err := castValue(dst.Elem().Type(), src)
 	if err != nil {
 		return err
+	}
+	if !casted.IsValid() || !casted.Type().AssignableTo(dst.Elem().Type()) {
+		return fmt.Errorf("failed to assign %s to %s", src.Type(), dst.Elem().Type())
 	}
 	dst.Elem().Set(casted)
 	return nil
 }
 
 func castValue(t reflect.Type, v reflect.Value) (reflect.Value, error) {
+	for v.IsValid() && (v.Kind() == reflect.Interface || v.Kind() == reflect.Ptr) {
+		v = v.Elem() // what the interface holds or the pointer points to; nothing, for a null
+	}
+	if !v.IsValid() {
+		// a null below the selected value: the zero value of its place
+		return reflect.Zero(t), nil
+	}
 	switch t.Kind() {
 	case reflect.Int:
 		vv, err := castInt(v)
@@ -107,6 +125,9 @@ func castValue(t reflect.Type, v reflect.Value) (reflect.Value, error) {
 }
 
 func castInt(v reflect.Value) (reflect.Value, error) {
+	if !v.IsValid() {
+		return reflect.ValueOf(int64(0)), nil // a null
+	}
 	switch v.Type().Kind() {
 	case reflect.Int, reflect.Int8, reflect.Int16, reflect.Int32, reflect.Int64:
 		return v, nil
@@ -148,6 +169,9 @@ func castInt(v reflect.Value) (reflect.Value, error) {
 }
 
 func castUint(v reflect.Value) (reflect.Value, error) {
+	if !v.IsValid() {
+		return reflect.ValueOf(uint64(0)), nil // a null
+	}
 	switch v.Type().Kind() {
 	case reflect.Int, reflect.Int8, reflect.Int16, reflect.Int32, reflect.Int64:
 		return reflect.ValueOf(uint64(v.Int())), nil
@@ -189,6 +213,9 @@ func castUint(v reflect.Value) (reflect.Value, error) {
 }
 
 func castString(v reflect.Value) (reflect.Value, error) {
+	if !v.IsValid() {
+		return reflect.ValueOf(""), nil // a null
+	}
 	switch v.Type().Kind() {
 	case reflect.Int, reflect.Int8, reflect.Int16, reflect.Int32, reflect.Int64:
 		return reflect.ValueOf(fmt.Sprint(v.Int())), nil
@@ -226,6 +253,9 @@ func castString(v reflect.Value) (reflect.Value, error) {
 }
 
 func castBool(v reflect.Value) (reflect.Value, error) {
+	if !v.IsValid() {
+		return reflect.ValueOf(false), nil // a null
+	}
 	switch v.Type().Kind() {
 	case reflect.Int, reflect.Int8, reflect.Int16, reflect.Int32, reflect.Int64:
 		switch v.Int() {
@@ -282,6 +312,9 @@ func castBool(v reflect.Value) (reflect.Value, error) {
 }
 
 func castFloat(v reflect.Value) (reflect.Value, error) {
+	if !v.IsValid() {
+		return reflect.ValueOf(float64(0)), nil // a null
+	}
 	switch v.Type().Kind() {
 	case reflect.Int, reflect.Int8, reflect.Int16, reflect.Int32, reflect.Int64:
 		return reflect.ValueOf(float64(v.Int())), nil
@@ -323,6 +356,9 @@ func castFloat(v reflect.Value) (reflect.Value, error) {
 }
 
 func castArray(t reflect.Type, v reflect.Value) (reflect.Value, error) {
+	if !v.IsValid() {
+		return reflect.Zero(t), nil // a null
+	}
 	kind := v.Type().Kind()
 	if kind == reflect.Interface {
 		return castArray(t, reflect.ValueOf(v.Interface()))
@@ -348,6 +384,9 @@ func castArray(t reflect.Type, v reflect.Value) (reflect.Value, error) {
 }
 
 func castSlice(t reflect.Type, v reflect.Value) (reflect.Value, error) {
+	if !v.IsValid() {
+		return reflect.Zero(t), nil // a null
+	}
 	kind := v.Type().Kind()
 	if kind == reflect.Interface {
 		return castSlice(t, reflect.ValueOf(v.Interface()))
@@ -370,6 +409,9 @@ func castSlice(t reflect.Type, v reflect.Value) (reflect.Value, error) {
 }
 
 func castMap(t reflect.Type, v reflect.Value) (reflect.Value, error) {
+	if !v.IsValid() {
+		return reflect.Zero(t), nil // a null
+	}
 	ret := reflect.MakeMap(t)
 	switch v.Type().Kind() {
 	case reflect.Map:
@@ -398,6 +440,9 @@ func castMap(t reflect.Type, v reflect.Value) (reflect.Value, error) {
 }
 
 func castStruct(t reflect.Type, v reflect.Value) (reflect.Value, error) {
+	if !v.IsValid() {
+		return reflect.Zero(t), nil // a null
+	}
 	ret := reflect.New(t).Elem()
 	switch v.Type().Kind() {
 	case reflect.Map:
